@@ -356,7 +356,7 @@ impl<'a> ExpressionEvaluator<'a> {
 
         // Convert back to Blob and wrap as Text
         Ok(DataType::Bool(Bool(
-            !negated && lhs_blob.like(pattern_blob.as_str()?)?,
+            lhs_blob.like(pattern_blob.as_str()?)? != negated,
         )))
     }
 
